@@ -101,6 +101,8 @@ WRAP_SYMS = [
     "pthread_cond_wait", "pthread_cond_timedwait", "pthread_cond_signal",
     "pthread_cond_broadcast", "clock_gettime", "nanosleep", "pthread_self", "pthread_equal", "posix_memalign", "free",
     "pthread_once",
+    "pthread_rwlock_init", "pthread_rwlock_destroy", "pthread_rwlock_rdlock", "pthread_rwlock_wrlock",
+    "pthread_rwlock_tryrdlock", "pthread_rwlock_trywrlock", "pthread_rwlock_unlock",
 ]
 
 
@@ -121,7 +123,7 @@ def build_harness(name, srcs, cflags=None, ldflags=None, wrap=False, includes=No
     for s in sorted(set(deps)):
         h.update(s.encode())
         h.update(open(s, "rb").read())
-    h.update(repr((cflags, ldflags, wrap, includes, variant, "recipe-v2")).encode())
+    h.update(repr((cflags, ldflags, wrap, includes, variant, "recipe-v3", tuple(WRAP_SYMS))).encode())
     key = h.hexdigest()[:16]
     exe = os.path.join(hdir, name)
     stamp = exe + ".stamp"
